@@ -132,6 +132,22 @@ def cases(tier, rng):
             out.append(("huge-count", line("decm", tid, [c, c])))
             out.append(("huge-count", line("decm", tid, [1, c, 1, c])))
             out.append(("huge-count", line("decm", tid, [2, c, 1] + [7] * 5)))
+    # state between calls: a LARGE valid list of dynamically sized items is decoded first (warm-up), then a tiny sequence
+    # with an oversized count: nothing the library remembers from the first call may license an allocation for the second
+    NW = 3000 if not big else 20000
+    for tid, t in enumerate(G.TYPES):
+        if t[0] != "vec" or G.static_len(t[1]) is not None or G.has_width0_list(t):
+            continue
+        items = []
+        while len(items) < NW:
+            items.append(G.gen_value(t[1], rng))
+        warm = G.encode(t, items[:NW])
+        if len(warm) > 60000:
+            items = items[:NW // 4]
+            warm = G.encode(t, items)
+        for c in (2**16, 2**32, 2**63, P - 1):
+            for tail in ([c], [c, 1, 0], [c] + [1] * 7):
+                out.append(("warm-then-huge-count", "decw %d %s %d %s" % (tid, G.term(t), len(warm), " ".join(map(str, warm + tail)))))
     return out
 
 
@@ -142,12 +158,12 @@ R_I = re.compile(r"^(OK|ERR|PANIC) A=(\d+)$")
 def compare(case, impl, model):
     f = case.split()
     op = f[0]
-    if op not in ("decm", "decx"):
+    if op not in ("decm", "decx", "decw"):
         return None if impl == model else "implementation and model differ"
     mi, mm = R_I.match(impl), R_M.match(model)
     if not mi or not mm:
         return "unparsable output"
-    n = len(f) - 3
+    n = len(f) - 3 if op != "decw" else len(f) - 4 - int(f[3])
     if mi.group(1) != mm.group(1):
         return "verdict differs: implementation %s, model %s" % (mi.group(1), mm.group(1))
     if mi.group(1) == "PANIC":
